@@ -184,6 +184,15 @@ func solveOne(o *Obligation, workDir string, timeoutS int, thorough bool) *Verdi
 		v.Status = "solver-disagreement"
 	default:
 		v.Status = "undecided"
+		allErr := len(answers) > 0
+		for _, a := range answers {
+			if a != "error" {
+				allErr = false
+			}
+		}
+		if allErr {
+			v.Solver = "SOLVER-ERROR"
+		}
 	}
 	return v
 }
